@@ -262,13 +262,29 @@ func (c *Config) SetString(name string, idx int, value string, opts ...Option) e
 //
 // SetChild supports the options: PathSep, MetaData
 func (c *Config) SetChild(name string, idx int, value *Config, opts ...Option) error {
+	if value == nil {
+		return raiseNil(ErrNilValue)
+	}
+
 	v := cfgSub{c: value}
-	if !value.ctx.empty() {
+	if !value.ctx.empty() || value.contains(c) {
 		// value is already part of another configuration and can not have two
-		// parents: add a copy, so Path and Parent of the new child are correct
+		// parents: add a copy, so Path and Parent of the new child are correct.
+		// The same goes for a root that c itself is a part of (or is): linking
+		// it in would make the configuration contain itself.
 		return c.setField(name, idx, v.cpy(context{}), opts)
 	}
 	return c.setField(name, idx, v, opts)
+}
+
+// contains checks if other is c or a configuration below c.
+func (c *Config) contains(other *Config) bool {
+	for cur := other; cur != nil; cur = cur.Parent() {
+		if cur == c {
+			return true
+		}
+	}
+	return false
 }
 
 // getField supports the options: PathSep, Env, Resolve, ResolveEnv
